@@ -248,6 +248,8 @@ REQUIRED_COUNTERS = [
     "reserve_passes_observed", "reserve_passes_before_first_put",
     # WrapperCache: rejected by the first cache (nothing to unwind) and by the second (unwind)
     "wrapper_fwd_rejected_by_cache_0", "wrapper_fwd_rejected_by_cache_1", "wrapper_unwinds",
+    # WrapperCache.Remove refused by the first / by a later wrapped cache (F29's situation)
+    "wrapper_remove_refused_by_cache_0", "wrapper_remove_refused_by_cache_1",
 ]
 
 
